@@ -154,7 +154,7 @@ def make_up_then_down(fermion_operator, n_spinorbitals):
         raise TypeError("Invalid operator input. Must be FermionOperator.")
     if n_spinorbitals % 2 != 0:
         raise ValueError("Invalid number of spin-orbitals. Expecting even number.")
-    term_modes = max([factor[0] for term in fermion_operator.terms for factor in term]) + 1
+    term_modes = max([factor[0] for term in fermion_operator.terms for factor in term], default=-1) + 1
     if term_modes > n_spinorbitals:
         raise ValueError("Invalid number of modes (n_spinorbitals) for input operator. Terms in operator exceed this value.")
     new_operator = FermionOperator()
